@@ -256,7 +256,7 @@ MUTANTS = [
     # ---- C10 ----
     M("c10.1-ack-noabort", "C10", "C10.1", WBF, "            If(port.rdata.valid,\n                wishbone.ack.eq(wishbone.cyc & ~aborted),", "            If(port.rdata.valid,\n                wishbone.ack.eq(wishbone.cyc),"),
     M("c10.1-ack-stays", "C10", "C10.1", WBF, "                wishbone.ack.eq(wishbone.cyc & ~aborted),\n                NextState(\"CMD\")\n            ),", "                wishbone.ack.eq(wishbone.cyc & ~aborted),\n            ),"),
-    M("c10.2-read-pending", "C10", "C10.2", WBF, "                    If(wr_valid,\n                        NextValue(wr_last, 1),\n                        NextState(\"WRITE_CMD\")\n                    ).Elif(rd_cache_hit,", "                    If(rd_cache_hit,"),
+    M("c10.2-read-pending", "C10", "C10.2", WBF, "                    If(wr_valid,\n                        # Preserve write/read ordering by draining pending writes first.\n                        NextValue(wr_last, 1),\n                        NextState(\"WRITE_CMD\")\n                    ).Elif(rd_cache_hit,", "                    If(rd_cache_hit,"),
     M("c10.2-cache-addr", "C10", "C10.2", WBF, "NextValue(rd_cache_addr, rd_addr),", "NextValue(rd_cache_addr, wide_addr),"),
     M("c10.3-merge-lane", "C10", "C10.3", WBF, "wr_can_merge.eq(~wr_valid | ((wr_addr == wide_addr) & ((wr_sel & chunk_bit) == 0))),", "wr_can_merge.eq(~wr_valid | (wr_addr == wide_addr)),"),
     M("c10.3-we-lane", "C10", "C10.3", WBF, "wr_chunk_we[i*wishbone_sel_width:(i + 1)*wishbone_sel_width].eq(wishbone.sel),", "wr_chunk_we[:wishbone_sel_width].eq(wishbone.sel),"),
